@@ -1290,6 +1290,14 @@ class Earlier(Expr):
         return self.expr.eval(position - self.distance, env, line)
 
 
+# does the value of an expression depend on where its item sits? (%offset at any depth)
+def is_position_relative(expr):
+    if isinstance(expr, Offset):
+        return True
+    inner = getattr(expr, 'expr', None)
+    return isinstance(inner, Expr) and is_position_relative(inner)
+
+
 # base class for assembly "things"
 class Item(abc.ABC):
 
@@ -2685,8 +2693,11 @@ def transform_compressible(items, constants, labels):
     # position of the instruction itself (%offset of a constant)
     def ImmIsStatic():
         def inner(i, p, e):
+            if is_position_relative(i.imm):
+                return False
             try:
-                return i.imm.eval(p, constants, i.line) == i.imm.eval(p + 2, constants, i.line)
+                i.imm.eval(p, constants, i.line)
+                return True
             except AssemblerError:
                 return False
         return inner
@@ -3050,7 +3061,8 @@ def transform_pseudo_instructions(items, constants, labels):
             # labels and positions are still moving: a value that depends on them may leave the
             # 12-bit range after this decision, so only a static value takes the short form
             try:
-                static = imm.eval(position, constants, item.line) == imm.eval(position + 2, constants, item.line)
+                imm.eval(position, constants, item.line)
+                static = not is_position_relative(imm)
             except AssemblerError:
                 static = False
             if static and value >= (-2**11) and value <= (2**11 - 1):
